@@ -92,6 +92,12 @@ package dns64
 //@   assert at call (middleware.ResponseWriter).WriteMsg#7: calls("(*middleware/dns64.responseWriter).filterUpstreamAAAA") == 1 && lastret("(*middleware/dns64.responseWriter).filterUpstreamAAAA", 3) > 0 ==> !arg1.AuthenticatedData
 //@   assert at call (middleware.ResponseWriter).WriteMsg#8: arg1 == lastret("(*middleware/dns64.responseWriter).synthesise") && arg1 != nil
 //@   assert at call (*middleware/dns64.responseWriter).synthesise#1: arg1 == m
+//@   # C04 ("replies composed from several cached pieces (... DNS64) ... inherit the shortest lifetime among the pieces"):
+//@   # the original AAAA reply is one of the pieces, with or without an SOA. Its smallest record TTL is taken BEFORE the
+//@   # exclusion filter removes anything, and every record of the synthesised answer is lowered to it
+//@   assert at call middleware/dns64.smallestRecordTTL#1: arg0 == old(m) && calls("(*middleware/dns64.responseWriter).filterUpstreamAAAA") == 0
+//@   loop 1 invariant havePiece && forall j int :: {synth.Answer[j]} 0 <= j && j < rangeidx ==> hdrOf(synth.Answer[j]).Ttl <= pieceTTL
+//@   assert at call (middleware.ResponseWriter).WriteMsg#8: havePiece ==> exhausted(1)
 //@
 //@ # synthesised record: owner = the A record's owner handed in, type AAAA, class IN, TTL = the TTL handed in, address
 //@ # = the RFC 6052 embedding (embedIPv4, proved above) of the A record's IPv4 address
@@ -200,4 +206,11 @@ package dns64
 //@   assert at call (*net.IPNet).Contains#1: arg0 == a.net && arg1 == p.IP
 //@   assert at call (*net.IPNet).Contains#2: arg0 == p && arg1 == a.net.IP && !lastret("(*net.IPNet).Contains#1")
 //@   assert at return#2: result == nil && exhausted(1)
+
+//@ # the smallest TTL among a message's records, OPT apart, and whether it has any
+//@ func smallestRecordTTL
+//@   abstract
+//@   nosafety all pre
+//@   assert at return: result1 == found && result0 == smallest
+//@   loop 2 invariant found ==> smallest <= 4294967295
 
